@@ -161,6 +161,9 @@ def parse_data_text(text):
     return ["mapping", tag_items(d)]
 
 
+TOP_MATCHES = []     # (expression, verdict of the real matcher) of the latest top files parsed (read by run_c11)
+
+
 def parse_top_text(text, sid, pdata):
     import yaml
     import vinegar.utils.system_matcher as sm
@@ -182,6 +185,8 @@ def parse_top_text(text, sid, pdata):
                 m = "yes" if sm.match(expr, system_id=sid, system_data=SmartLookupDict(copy.deepcopy(pdata))) else "no"
             except Exception as e:
                 m = ["error", type(e).__name__]
+            if len(TOP_MATCHES) < 64:
+                TOP_MATCHES.append([expr, m])
         if isinstance(fl, str):
             l = ["str"]
         elif isinstance(fl, (list, tuple)):
@@ -220,11 +225,12 @@ def run_c11(case):
         build_tree(sb, case)
         src = make_source(sb.root, cfg, 64)
         impl, _ = call(src, case["id"], case["pdata"], "pv0")
+        del TOP_MATCHES[:]
         try:
             view = compute_view(sb.root, cfg, case["id"], case["pdata"])
         except Unsupported as e:
             return {"unsupported": str(e), "impl": impl}
-    return {"impl": impl, "view": view}
+    return {"impl": impl, "view": view, "top_matches": [list(x) for x in TOP_MATCHES]}
 
 
 # --------------------------------------------------------------------------- C12
